@@ -55,6 +55,7 @@ type RTScn struct {
 	// the world
 	Dest            int               `json:"dest"` // TTL from which the target answers (0 = never)
 	Hops            map[int]HopSpec   `json:"hops,omitempty"`
+	Inject          []Inject          `json:"inject,omitempty"`     // extra deliveries, for every run and probe of the request
 	Capability      string            `json:"capability,omitempty"` // SACK target: "", no-sack-permitted, plain-acks, closed, no-handshake, timestamps
 	Faults          []simnet.Fault    `json:"faults,omitempty"`
 	IPIDBase        uint32            `json:"ipid_base"`
@@ -193,7 +194,7 @@ func runRT(cfg vsched.Config, sc *RTScn, twice bool) *RTResult {
 	// world: one Scn per run the request may start (queries, e2e probes, prefer_sack fallback)
 	var scns []*Scn
 	mk := func(variant string, flow int) *Scn {
-		s := &Scn{Variant: variant, First: 1, Last: 255, Dest: sc.Dest, Hops: sc.Hops, TimeoutMs: sc.TimeoutMs, DelayMs: sc.DelayMs, Flow: flow, Port: sc.Port}
+		s := &Scn{Variant: variant, First: 1, Last: 255, Dest: sc.Dest, Hops: sc.Hops, Inject: append([]Inject{}, sc.Inject...), TimeoutMs: sc.TimeoutMs, DelayMs: sc.DelayMs, Flow: flow, Port: sc.Port}
 		s.Defaults()
 		return s
 	}
@@ -475,8 +476,12 @@ func runRT(cfg vsched.Config, sc *RTScn, twice bool) *RTResult {
 				})
 			}
 			vsched.Block(cnt2{&n2}, -1, "join requests")
-		} else if sc.CancelAtMs > 0 {
+		} else if sc.CancelAtMs != 0 {
+			// (negative: the caller's context is already cancelled when the call is made)
 			ctx, cancel := vctx.WithCancelAt(context.Background(), int64(sc.CancelAtMs)*1_000_000)
+			if sc.CancelAtMs < 0 {
+				cancel()
+			}
 			out.Res, out.Err = tr.RunTraceroute(ctx, params)
 			cancel()
 		} else {
